@@ -10,6 +10,9 @@ if [ "$ROUND" = "1" ]; then
 elif [ "$ROUND" = "3" ]; then
   ROOT=/tmp/seed3
   SPECS="C01-control-length-u16-add-overflow:C01 C02-reveal-chunk-granular-bound:C02 C03-resultcode-msg-fffd-rejected:C03 C04-data-length-patched-at-absolute-2:C04 C05-data-header-length-u16-wrap:C05 C06-length-member-12-drops-avps:C06 C07-writer-default-method-native-endian:C07 C08-control-guard-len-as-u16:C08 C09-backpatch-skipped-when-length-equals-end:C09 C10-encoder-refuses-exactly-65535:C10 C11-scratch-buffer-241-250-secret-panics:C11 C12-scratch-buffer-241-250-secret-truncates:C12 C13-resultcode-all-nul-message-panics:C13 C14-try-read-skips-optional-vendor-avps:C14 C15-greedy-stops-after-256-records:C15 C18-bytes-position-plus-length-overflow:C18 C19-secret-prefix-memo-keyed-by-address:C19 C20-q931-dangling-lead-octet-accepted:C20"
+elif [ "$ROUND" = "5" ]; then
+  ROOT=/tmp/seed5
+  SPECS="C01-greedy-prealloc-from-reader-len:C01 C02-threadlocal-payload-measured-flag-reentrant:C02 C03-writer-position-u32:C03 C04-offset-pad-via-fallible-bytes:C04 C05-trailing-text-bytes0-on-exhausted-reader:C05 C06-deferred-field-position-u32:C06 C07-header-patch-skipped-while-panicking:C07 C08-fastpath-fallback-subreader-two-octets-long:C08 C09-payload-scratch-not-cleared-after-unwind:C09 C10-payload-staging-leftover-after-refused-encode:C10 C11-keyed-md5-cache-fnv32-fingerprint:C11 C12-hide-scratch-leftover-after-refused-hide:C12 C13-digest-scratch-tls-destroyed-at-thread-exit:C13 C14-unused-option-via-threadlocal-reentrant-reader:C14 C15-remaining-octets-as-u16:C15 C18-slicereader-take-u32:C18 C19-hidden-uninit-after-declined-bytes:C19 C20-header-guard-remaining-as-u16:C20"
 elif [ "$ROUND" = "4" ]; then
   ROOT=/tmp/seed4
   SPECS="C01-q931-strip-terminator-char-boundary:C01 C02-data-header-mask-admits-reserved-bit:C02 C03-hidden-type36-len4-decoded-as-random-vector:C03 C04-data-encoder-refuses-exactly-65535:C04 C05-resultcode-msg-fffd-rejected-2:C05 C06-lcp-confreq-header-stripped:C06 C07-resultcode-general-error-default-error-code:C07 C08-zlb-fast-path-leaves-pad:C08 C09-last-header-atomic-race:C09 C10-rx-speed-dropped-when-equal-to-tx:C10 C11-hide-length-from-get-length-chars:C11 C12-secret-prefix-cache-prefix-compare:C12 C13-reveal-inline-buffer-239-240:C13 C14-version-exemption-for-opening-sccrq:C14 C15-zero-header-ends-list-silently:C15 C18-overwrite-refusal-not-atomic:C18 C19-error-report-hashset-order:C19 C20-nonmandatory-avp-errors-swallowed:C20"
